@@ -1,7 +1,7 @@
 """C07 Matches are instruction-aligned and report genuine addresses."""
 import os
 import yaml
-import gen_rules, patdiff, impl
+import gen, gen_rules, patdiff, impl
 from props.common_pat import run_cases, blob_tagger, finding_reproduces, replay  # noqa: F401
 
 import enginetie
@@ -49,6 +49,74 @@ def aligned(ctx, o):
         ctx.report.violate("alignment", patdiff.case_of(o), "same number of texts and addresses", {"texts": texts, "addrs": addrs})
 
 
+def with_noise(g, insts):
+    """the listing text with byte-continuation lines, labels and blank lines between the instruction lines"""
+    lines = ["", "a.out:     file format elf64-x86-64", "", "", "Disassembly of section .text:", ""]
+    for k, i in enumerate(insts):
+        if k == 0 or g.chance(0.1):
+            lines.append("%016x <f%d>:" % (int(i[0], 16), k))
+        lines.append(gen.render_inst(i, g))
+        if g.chance(0.35):
+            # objdump wraps the bytes of a long instruction: an address and raw bytes, nothing else
+            lines.append("%s:\t%s" % (("%x" % (int(i[0], 16) + 7)).rjust(8),
+                                       " ".join("%02x" % g.int(0, 255) for _ in range(g.int(1, 4))) + " "))
+        if g.chance(0.05):
+            lines.append("")
+    return "\n".join(lines) + "\n"
+
+
+def genuine(ctx, n):
+    """reported matches against the LISTING (not the implementation's own stream): every covered record must be an
+    instruction line of the input, consecutive and in order, and the reported address that of the first; rules with and
+    without `valid_addr_range` (a second observer in the consumer's chain), listings with continuation lines"""
+    g, rep = ctx.g, ctx.report
+    for _ in range(n):
+        doc = leading_rule(g)
+        if g.chance(0.6):
+            doc = dict(doc)
+            cfg = dict(doc.get("config") or {})
+            cfg["valid_addr_range"] = g.pick([{"min": "0xfffffffffff0", "max": "0xffffffffffff"}, {"min": "0", "max": "0xffffff"}])
+            doc["config"] = cfg
+        insts = gen_rules.realise(g, doc)
+        if g.chance(0.5):
+            insts = gen_rules.perturb(g, insts)
+        text = with_noise(g, insts)
+        seq = [(a, m) for a, m, *_ in insts]
+        rule_path = ctx.scratch.write(impl.dump_yaml(doc), ".yaml")
+        in_path = ctx.scratch.write(text, ".s")
+        kw = dict(rule_path=rule_path, input_path=in_path)
+        texts = impl.run_op(ctx.scratch, doc, text, mode="all", ret="list", **kw)
+        addrs = impl.run_op(ctx.scratch, doc, text, mode="all", ret="list", addr_only=True, **kw)
+        first = impl.run_op(ctx.scratch, doc, text, mode="first", ret="list", addr_only=True, **kw)
+        case = {"rule": doc, "listing": text}
+        ok = texts[0] == "ok" and addrs[0] == "ok"
+        rep.case(case, ok and bool(texts[1]), tags=["genuine-address", "range" if "config" in doc and "valid_addr_range" in doc["config"] else "no-range"])
+        if not ok:
+            continue
+        bad = None
+        for t, a in zip(texts[1], addrs[1]):
+            dec = gen.decode_stream(t)
+            if not dec:
+                bad = "reported text is not a run of whole records"
+                break
+            cov = [(x, m) for x, m, _ in dec]
+            if not any(seq[k:k + len(cov)] == cov for k in range(len(seq) - len(cov) + 1)):
+                bad = "covered records are not consecutive instruction lines of the input"
+                break
+            if a != cov[0][0]:
+                bad = "reported address is not the address of the first covered instruction"
+                break
+        if bad is None and len(texts[1]) != len(addrs[1]):
+            bad = "same number of texts and addresses"
+        if bad is None and first[0] == "ok" and first[1] != addrs[1][:1]:
+            bad = "first-match address differs from the first element of the all-matches list"
+        if bad:
+            rep.violate("genuine-address", case, bad, {"texts": texts[1][:5], "addresses": addrs[1][:5],
+                        "instruction_lines": seq[:40]}, model_agrees_with_spec=None)
+            if rep.violations and ctx.tier == "thorough":
+                return
+
+
 def leading_rule(g):
     doc = gen_rules.rule(g, FEATS, depth=2)
     if g.chance(0.5):
@@ -71,3 +139,4 @@ def run(ctx, factor):
                        "implementation's outputs), and texts/addresses must equal the specification's scan")
     run_cases(ctx, factor, FEATS, 300, 8000, scan=True, rule_fn=leading_rule, modes=("bool", "all", "first", "alladdr"),
               tagger=blob_tagger(["$not", "$or", "&i", "$deref", "times"]), extra_check=aligned)
+    genuine(ctx, ctx.budget(80, 3000) * factor)
